@@ -51,6 +51,7 @@ type FuncContract struct {
 	Results  []string
 	Verify   bool // generate obligations for this function
 	Notes    []string
+	Raw      []string
 	Dyn      map[string]string
 	Opaque   []string
 	Use      []string
@@ -158,7 +159,7 @@ func matchParen(s string, open int) int {
 	return -1
 }
 
-func (db *ContractDB) loadFile(file, pkgPath string) error {
+func (db *ContractDB) loadFile(file, pkgPath string) (err error) {
 	fh, err := os.Open(file)
 	if err != nil {
 		return err
@@ -191,6 +192,18 @@ func (db *ContractDB) loadFile(file, pkgPath string) error {
 		lines = append(lines, ln{body, no})
 	}
 	var cur *FuncContract
+	var dups [][2]*FuncContract
+	defer func() {
+		if err != nil {
+			return
+		}
+		for _, d := range dups {
+			if strings.Join(d[0].Raw, "\n") != strings.Join(d[1].Raw, "\n") {
+				err = fmt.Errorf("%s: assumed contract for %s differs from the one in %s", file, d[0].Key, d[0].File)
+				return
+			}
+		}
+	}()
 	for _, l := range lines {
 		where := fmt.Sprintf("%s:%d", file, l.no)
 		fail := func(format string, a ...any) error {
@@ -242,7 +255,13 @@ func (db *ContractDB) loadFile(file, pkgPath string) error {
 				}
 			}
 			cur.Key = key
-			if _, dup := db.funcs[key]; dup {
+			if old, dup := db.funcs[key]; dup {
+				// the same assumed contract of a dependency may be stated by several
+				// packages; the texts must agree (checked at the end of the file)
+				if cur.Assumed && old.Assumed && !old.Verify && !cur.Verify {
+					dups = append(dups, [2]*FuncContract{old, cur})
+					continue
+				}
 				return fail("duplicate contract for %s", key)
 			}
 			db.funcs[key] = cur
@@ -360,6 +379,7 @@ func (db *ContractDB) loadFile(file, pkgPath string) error {
 			if cur == nil {
 				return fail("clause %q outside a func block", trim)
 			}
+			cur.Raw = append(cur.Raw, trim)
 			switch word {
 			case "prop":
 				cur.Props = append(cur.Props, strings.Fields(strings.ReplaceAll(rest, ",", " "))...)
